@@ -509,8 +509,9 @@ class TransformationGraph(Graph):
         if self.with_classes:
             self.add((wf.root, RDF.type, TF.Transformation))
 
-        return {wfnode: self.expr_nodes[expr]
-            for wfnode, expr in exprs.items()}
+        # A resource may not have been visited yet (a tool that just hands
+        # on one input while declaring another), so don't assume it has a node
+        return {wfnode: wfnode2tfmnode(wfnode) for wfnode in exprs}
 
     def parse_shortcuts(self, remove: bool = True) -> None:
         """
